@@ -37,25 +37,52 @@ def run_one(pdir):
     shutil.rmtree(tmp, ignore_errors=True)
 
 
+def run_alpha(_):
+  """generated twin: every local variable of the package renamed (tools/alpha_rename.py)"""
+  tmp = tempfile.mkdtemp(prefix='pvref_', dir='/tmp')
+  try:
+    r = subprocess.run([sys.executable, os.path.join(VERIF, 'tools', 'alpha_rename.py'), '/repo/precondition', os.path.join(tmp, 'precondition')],
+                       capture_output=True, text=True)
+    if r.returncode != 0:
+      return 'ALPHA-RENAME', {'*': (99, r.stderr[-200:])}
+    for root, _, files in os.walk(os.path.join(tmp, 'precondition')):
+      for f in files:
+        if f.endswith('_test.py'):
+          os.remove(os.path.join(root, f))
+    env = dict(os.environ, PYTHONPATH=VERIF, PYTHONDONTWRITEBYTECODE='1')
+    out = {}
+    for p in PROPS:
+      r = subprocess.run([sys.executable, '-m', 'pvstatic.driver', p, '--tier', 'quick', '--repo', tmp, '--no-evidence'],
+                         capture_output=True, text=True, cwd=VERIF, env=env)
+      first = [l.strip() for l in r.stdout.splitlines() if l.startswith('  ') or 'ANALYSIS-ERROR' in l]
+      out[p] = (r.returncode, first[0][:260] if first else '')
+    return 'ALPHA-RENAME (generated)', out
+  finally:
+    shutil.rmtree(tmp, ignore_errors=True)
+
+
 def main():
-  roots = sys.argv[1:] or [os.path.join(VERIF, 'refactors')]
+  roots = [a for a in sys.argv[1:] if not a.startswith('--')] or [os.path.join(VERIF, 'refactors')]
   dirs = []
   for root in roots:
     if os.path.exists(os.path.join(root, 'patch.diff')):
-      dirs.append(root)
+      dirs.append(os.path.abspath(root))
       continue
     for d in sorted(os.listdir(root)):
       if os.path.exists(os.path.join(root, d, 'patch.diff')):
-        dirs.append(os.path.join(root, d))
+        dirs.append(os.path.abspath(os.path.join(root, d)))
   bad = 0
+  jobs = [(run_one, d) for d in dirs]
+  if len(sys.argv) == 1 or '--alpha' in sys.argv:
+    jobs.append((run_alpha, None))
   with ThreadPoolExecutor(8) as ex:
-    for pdir, out in ex.map(run_one, dirs):
+    for pdir, out in ex.map(lambda j: j[0](j[1]), jobs):
       alarms = {p: v for p, v in out.items() if v[0] != 0}
       print(('ALARM ' if alarms else 'quiet ') + pdir)
       for p, (rc, line) in alarms.items():
         bad += 1
         print(f'    {p} rc={rc} {line}')
-  print(f'{len(dirs)} refactors, {bad} alarms')
+  print(f'{len(jobs)} refactors, {bad} alarms')
   return 1 if bad else 0
 
 
